@@ -46,6 +46,52 @@ def const(c):
     return {(): c} if c else {}
 
 
+CTX = None             # set by the caller that needs loop information (sums accumulated by a loop)
+
+
+def _loop_sum(t, depth):
+    """`let mut n = c; for x in xs { n += g(x) }`: the value of n after the loop is c + sum over xs of g, i.e. c + len(xs) * g when g does
+    not depend on the element (after the type invariants).  Recognised on the value after the loop (phi of the initial value and the
+    last update) and on the updated value itself."""
+    if ENGINE is None or CTX is None or depth > 40:
+        return None
+    upd = None
+    if t.tag == 'phi' and len(t.args) == 2:
+        for x, y in ((t.args[0], t.args[1]), (t.args[1], t.args[0])):
+            if x.tag == 'binop' and x[1] == 'Add' and y.tag == 'const':
+                upd = x
+    elif t.tag == 'binop' and t[1] == 'Add':
+        upd = t
+    if upd is None:
+        return None
+    lv = g = None
+    for a, b in ((upd[2], upd[3]), (upd[3], upd[2])):
+        if a.tag == 'lv':
+            lv, g = a, b
+    if lv is None:
+        return None
+    try:
+        defs = ENGINE.lv_defs(lv)
+    except Exception:
+        return None
+    inits = [d for d in defs if d.tag == 'const' and isinstance(d[1], int) and not isinstance(d[1], bool)]
+    upds = [d for d in defs if d is upd]
+    if len(defs) != 2 or len(inits) != 1 or len(upds) != 1:
+        return None
+    body = ENGINE.facts.by_key.get(lv[1])
+    lp = CTX.loops(body).get(lv[3]) if body is not None else None
+    if lp is None or lp.iter_term is None or not lp.driver_only_exit:
+        return None
+    gv = ival(g, depth + 1)
+    from bpsa.terms import mk_elem
+    ce = canon(mk_elem(ENGINE, lp.iter_term))
+    for mono in gv:
+        for a in mono:
+            if ce and ce in a:
+                raise NoLen('summand depends on the element: %s' % a)
+    return padd(const(inits[0][1]), pmul(icount(lp.iter_term, depth + 1), gv))
+
+
 def ival(t, depth=0):
     """polynomial of an integer-valued term"""
     if depth > 60:
@@ -59,6 +105,9 @@ def ival(t, depth=0):
         return ival(t[2], depth + 1)
     if k == 'discr':
         return atom(canon(t[1]))
+    acc = _loop_sum(t, depth)
+    if acc is not None:
+        return acc
     if k == 'binop' and t[1] in ('Add', 'Sub', 'Mul'):
         a, b = ival(t[2], depth + 1), ival(t[3], depth + 1)
         return pmul(a, b) if t[1] == 'Mul' else padd(a, b, 1 if t[1] == 'Add' else -1)
